@@ -78,6 +78,17 @@ func runC12(c *Ctx) error {
 		for k := 0; k < 1+rng.Intn(3); k++ {
 			base.G.Lex = append(base.G.Lex, gram.LexDef{Kind: gram.DTok, Name: fmt.Sprintf("zz_unused%d", k), Pat: gram.StrPattern(fmt.Sprintf("#%d", k))})
 		}
+		// one named token gets lexemes of arbitrary length: x {x}
+		longTok := ""
+		for di := range base.G.Lex {
+			d := &base.G.Lex[di]
+			if d.Kind == gram.DTok && len(d.Name) == 1 {
+				longTok = d.Name
+				c0 := rune(d.Name[0])
+				d.Pat = gram.Seq(gram.Lit(c0), gram.Rep(gram.Seq(gram.Lit(c0))))
+				break
+			}
+		}
 		grp := &c12Group{base: base}
 		// choose subsets: all in thorough, a rotating selection in quick (always containing each single flag over the run)
 		var chosen [][]string
@@ -102,7 +113,13 @@ func runC12(c *Ctx) error {
 		for _, in := range model.InputPool(inRng, base.CFG, nIn, 3) {
 			grp.inputs = append(grp.inputs, in)
 			if inRng.Intn(3) == 0 {
-				src := srcOf(base.Names(in), inRng)
+				names := append([]string(nil), base.Names(in)...)
+				for k, n := range names {
+					if n == longTok && inRng.Intn(2) == 0 {
+						names[k] = strings.Repeat(n, 1+inRng.Intn(70)) // long lexemes (longer than any fixed-size buffer)
+					}
+				}
+				src := srcOf(names, inRng)
 				if inRng.Intn(4) == 0 {
 					src = append(src, []string{" #0", " #1 #0", "#2"}[inRng.Intn(3)]...)
 				}
